@@ -278,8 +278,8 @@ var constLits = map[string][]string{
 	"uint32": {"4294967295", "0xFFFFFFFF", "0"}, "int32": {"-2147483648", "2147483647", "-1"},
 	"uint64": {"18446744073709551615", "0xFFFFFFFFFFFFFFFF", "1"}, "int64": {"-9223372036854775808", "9223372036854775807"},
 	"float32": {"1.5", "-0.25", "3", "inf", "-inf", "nan", "1.5e3", "-2"}, "float64": {"2.718281828", "-1e10", "inf", "-inf", "nan", "0.0", "12345678"},
-	"string":  {`"hello"`, `""`, `"quote \" inside"`, `"tab\t and newline\n"`, `"unicode ✓"`, `"back\\slash"`},
-	"guid":    {`"e215a946-b26f-4567-a276-13136f0a1708"`, `"00000000-0000-0000-0000-000000000000"`, `"E215A946B26F4567A27613136F0A1708"`},
+	"string": {`"hello"`, `""`, `"quote \" inside"`, `"tab\t and newline\n"`, `"unicode ✓"`, `"back\\slash"`},
+	"guid":   {`"e215a946-b26f-4567-a276-13136f0a1708"`, `"00000000-0000-0000-0000-000000000000"`, `"E215A946B26F4567A27613136F0A1708"`},
 }
 
 func (g *Gen) constDef() *Def {
